@@ -1924,6 +1924,8 @@ class tensor:
         if version == 2 or version is None:  # Calculate the new way
             d = self.ndims
             sz = self.shape[0]  # Sizes of all modes must be the same
+            if any(s != sz for s in self.shape) or len(vector) != sz:
+                assert False, "Multiplicand is wrong size"
 
             dnew = skip_dim + 1  # Number of modes in result
             drem = d - dnew  # Number of modes multiplied out
